@@ -213,7 +213,8 @@ def coq_case(case, obs, mode):
     if "error" in obs:
         raise C.HarnessError("driver error: " + obs["error"])
     resolved = dict(case, ops=obs["ops"])
-    return RC.coq_hist_case(resolved, obs)
+    # the separator 999999 is a unary nat in Coq (16 MB each): name the shared constant instead
+    return RC.coq_hist_case(resolved, obs).replace("999999", "MARK")
 
 
 QUERY_KINDS = ("lookup", "lookup1", "queryAdapter", "adapter_hook", "queryMultiAdapter", "lookupAll", "names",
